@@ -51,12 +51,28 @@ package act
 //@   ensures [one_for_one_touches_only_that_child] forall i int :: 0 <= i && i < len(s.spec) && s.spec[i].Name != name && old(s.spec[i].pid) != pid ==> s.spec[i].pid == old(s.spec[i].pid)
 //@   ensures [shutdown_terminates_when_last_child_is_gone] old(s.shutdown) ==> (result.do == supActionTerminate <==> len(s.wait) == 0) && (result.do == supActionTerminate ==> result.reason == old(s.shutdownReason))
 //@   ensures [exceeded_reason_is_kept] result.do == supActionTerminateChildren && result.reason == ErrSupervisorRestartsExceeded ==> s.shutdown && s.shutdownReason == ErrSupervisorRestartsExceeded
+// C08 (all-for-one / rest-for-one). Representation invariant: distinct non-nil child specs, a mode in
+// 0..3, restartI inside the spec list, and - while stopping children one at a time (KeepOrder) - at
+// most one child awaited. The explicit panic(gen.ErrInternal) of the ordered stop must be unreachable
+// for every machine state satisfying the invariant and every termination event.
+//@ spec func arfoWF(s *supARFO) bool = (forall i int :: 0 <= i && i < len(s.spec) ==> s.spec[i] != nil) && (forall i, j int :: 0 <= i && i < j && j < len(s.spec) ==> s.spec[i] != s.spec[j]) && 0 <= s.mode && s.mode <= 3 && 0 <= s.restartI && s.restartI <= len(s.spec) && (s.mode == 2 || s.mode == 3 ==> s.wait != nil) && (s.mode == 2 && s.keeporder ==> len(s.wait) <= 1)
+//@ func (s *supARFO) childrenForTermination
+//@   trusted
+//@ func (s *supARFO) childForStart
+//@   trusted
 //@ func (s *supARFO) childTerminated
-//@   props C09
+//@   props C09 C08 C10
 //@   mode int
 //@   no_safety
 //@   requires [history_wf] restartsWF(s.restarts) && 0 <= int(s.restart.Period) && 0 <= int(s.restart.Intensity)
+//@   requires [wf] arfoWF(s)
+//@   loop 1 invariant [scan] -1 <= rangeindex && rangeindex < len(s.spec) && arfoWF(s) && s.spec == old(s.spec) && s.restart == old(s.restart) && s.mode == old(s.mode) && s.keeporder == old(s.keeporder) && s.wait == old(s.wait) && (forall k gen.PID :: has(s.wait, k) == (old(has(s.wait, k)) && k != pid)) && wait != nil && wait != s.wait
 //@   at call supCheckRestartIntensity assert [configured_window] period == int(s.restart.Period) && intensity == int(s.restart.Intensity) && restarts == s.restarts
+//@   ensures [temporary_never_restarts] old(s.restart.Strategy) == SupervisorStrategyTemporary && old(s.mode) == 0 ==> result.do != supActionStartChild
+//@   ensures [transient_restarts_only_after_abnormal_end] old(s.restart.Strategy) == SupervisorStrategyTransient && old(s.mode) == 0 && (reason == gen.TerminateReasonNormal || reason == gen.TerminateReasonShutdown) ==> result.do != supActionStartChild
+//@   ensures [no_restart_while_shutting_down] old(s.mode) == 3 ==> result.do != supActionStartChild
+//@   ensures [shutdown_terminates_when_last_child_is_gone] old(s.mode) == 3 ==> (result.do == supActionTerminate <==> len(s.wait) == 0) && (result.do == supActionTerminate ==> result.reason == old(s.shutdownReason))
+//@   ensures [exceeded_reason_is_kept] reason != ErrSupervisorRestartsExceeded && result.do == supActionTerminateChildren && result.reason == ErrSupervisorRestartsExceeded ==> s.mode == 3 && s.shutdownReason == ErrSupervisorRestartsExceeded
 //@ func (s *supSOFO) childTerminated
 //@   props C09
 //@   mode int
